@@ -366,7 +366,7 @@ def emit_rule(ctx):
                         else:
                             obs.append(ob(key, False, ctx.where(f), "a mappable dynamic value is emitted without registering a binding-map updater (binding_map_keys %s): the advertised slot A[field][i] stays undefined" % ("bound but unused" if binds else "ignored")))
         # (ii)+(iii) per write_map site
-        toks = es.linearize(f.body)
+        toks = es.linearize(f.body, top=True)
         stmts = []
 
         def walk_order(ts):
@@ -477,26 +477,53 @@ def collector_rule(ctx):
     if len(ie) != 1 or len(wm) != 1:
         return [ob("C07.collector/anchor", False, "binding_map.rs", "is_empty / to_proc_gen_write_map not found")]
     f = ie[0]
-    ok = False
-    d = "unrecognised shape"
+
+    def is_mapped_test(e):
+        """`bmc.get_field(k).is_some()` -> True, `.is_none()` -> False, else None"""
+        e = sir.strip_ref(e)
+        if e.get("k") == "mcall" and e["m"] in ("is_some", "is_none") and e["recv"].get("k") == "mcall" and e["recv"]["m"] == "get_field":
+            return e["m"] == "is_some"
+        return None
+    ok = None
+    d = "a form this rule does not read"
     loops = [n for n in sir.walk(f.body) if n.get("k") == "for" and "keys" in sir.expr_str(n["e"])]
+    tail = f.body["stmts"][-1] if f.body["stmts"] else None
+    tail_e = tail.get("e") if tail is not None and tail.get("k") == "expr" else None
     if len(loops) == 1:
         ifs = [n for n in sir.walk(loops[0]["body"]) if n.get("k") == "if"]
-        tail = f.body["stmts"][-1]
-        tail_v = tail["e"].get("v") if tail.get("k") == "expr" and tail["e"].get("k") == "lit" else None
+        tail_v = tail_e.get("v") if tail_e is not None and tail_e.get("k") == "lit" else None
         if len(ifs) == 1:
-            c = sir.expr_str(ifs[0]["cond"]).replace(" ", "")
+            mt = is_mapped_test(ifs[0]["cond"])
             rets = [n["e"].get("v") for n in sir.walk(ifs[0]["then"]) if n.get("k") == "return" and n.get("e") is not None]
-            mapped_test = re.fullmatch(r"bmc\.get_field\(\w+\)\.is_some\(\)", c) is not None
-            ok = mapped_test and rets == [False] and tail_v is True
-            d = "for key in keys { if %s { return %s } } %s" % (c, rets, tail_v)
+            if mt is not None and len(rets) == 1 and tail_v is not None:
+                # `if mapped { return X }` ... Y : is_empty is X when some key is mapped (mt) / unmapped (not mt), Y otherwise
+                ok = (mt is True and rets == [False] and tail_v is True)
+                d = "for key in keys { if %s { return %s } } %s" % (sir.expr_str(ifs[0]["cond"]), rets, tail_v)
+    elif tail_e is not None:
+        e = tail_e
+        neg = False
+        while e.get("k") in ("unary", "paren"):
+            if e.get("k") == "unary" and e.get("op") == "!":
+                neg = not neg
+            e = e["e"]
+        if e.get("k") == "mcall" and e["m"] in ("any", "all") and e["args"] and e["args"][0].get("k") == "closure" and "keys" in sir.expr_str(e["recv"]):
+            body = e["args"][0]["body"]
+            while body.get("k") == "block" and len(body["stmts"]) == 1 and body["stmts"][0].get("k") == "expr":
+                body = body["stmts"][0]["e"]
+            mt = is_mapped_test(body)
+            if mt is not None:
+                # any(mapped) negated, or all(unmapped)
+                ok = (e["m"] == "any" and mt is True and neg) or (e["m"] == "all" and mt is False and not neg)
+                d = "%s%s(%s)" % ("!" if neg else "", e["m"], sir.expr_str(body))
     obs.append(ob("C07.collector/is_empty", ok, ctx.where(f), "is_empty() is false iff some key is mapped: %s" % d,
-                  witness=None if ok else 'data-x="{{a + b}}" with wx:if="{{b}}": `a` stays advertised but its updater is never registered'))
+                  witness=None if ok is not False else 'data-x="{{a + b}}" with wx:if="{{b}}": `a` stays advertised but its updater is never registered'))
     # write_map registers under the same test
     g = wm[0]
-    conds = [sir.expr_str(n["cond"]).replace(" ", "") for n in sir.walk(g.body) if n.get("k") == "if"]
-    ok2 = any(re.fullmatch(r"bmc\.get_field\(\w+\)\.is_some\(\)", c) for c in conds)
-    obs.append(ob("C07.collector/write_map", ok2, ctx.where(g), "updaters are registered for exactly the mapped keys (%s)" % conds))
+    tests = [is_mapped_test(n) for n in sir.walk(g.body) if n.get("k") == "mcall" and n["m"] in ("is_some", "is_none")]
+    tests = [t for t in tests if t is not None]
+    writes_a = any((sir.write_fmt_call(n) or (None, []))[1][:1] == [("lit", "A[")] for n in sir.walk(g.body))
+    ok2 = (True in tests or False in tests) if writes_a else False
+    obs.append(ob("C07.collector/write_map", ok2, ctx.where(g), "updaters are registered (`A[key][i]=`) under a test that the key is mapped: %s" % tests))
     # get_field / list_fields agree: both honour overall_disabled and only report Mapped
     gf = [h for h in tc.fns if h.name == "get_field" and h.base == "BindingMapCollector" and h.body]
     lf = [h for h in tc.fns if h.name == "list_fields" and h.base == "BindingMapCollector" and h.body]
@@ -505,16 +532,30 @@ def collector_rule(ctx):
             obs.append(ob("C07.collector/%s" % nm, False, "binding_map.rs", "%s not found" % nm))
             continue
         h = hs[0]
-        txt = " ".join(sir.expr_str(n) for n in sir.walk(h.body) if n.get("k") in ("if", "arm", "return"))
-        dis = any(n.get("k") == "if" and "overall_disabled" in sir.expr_str(n["cond"]) and any(x.get("k") == "return" and sir.expr_str(x.get("e")) == "None" for x in sir.walk(n["then"])) for n in sir.walk(h.body))
+        dis = any(x.get("k") in ("field", "path") and sir.expr_str(x).endswith("overall_disabled") for x in sir.walk(h.body))
         arms = {}
         for n in sir.walk(h.body):
             if n.get("k") == "arm":
-                for v in sir.pat_variants(n["pat"]):
+                b = n["body"]
+                while b.get("k") == "block" and len(b["stmts"]) == 1 and b["stmts"][0].get("k") == "expr":
+                    b = b["stmts"][0]["e"]
+                vs_ = set(sir.pat_variants(n["pat"])) | set(x["segs"][-1] for x in sir.walk(n["pat"]) if x.get("segs"))
+                for v in vs_:
                     if v in ("Mapped", "Disabled"):
-                        arms[v] = sir.expr_str(n["body"])
-        okh = dis and arms.get("Disabled") == "None" and arms.get("Mapped", "").startswith("Some")
-        obs.append(ob("C07.collector/%s" % nm, okh, ctx.where(h), "%s reports a field only if the collector is not globally disabled and the field is Mapped: disabled-check=%s arms=%s" % (nm, dis, arms)))
+                        arms[v] = sir.expr_str(b)
+            if n.get("k") == "if" and n["cond"].get("k") == "let":
+                vs = sir.pat_variants(n["cond"]["pat"])
+                if "Mapped" in vs:
+                    arms.setdefault("Mapped", "Some" if any(x.get("k") == "call" and sir.call_name(x) == "Some" for x in sir.walk(n["then"])) else "?")
+        if not dis:
+            okh = False
+        elif arms.get("Disabled") == "None" and arms.get("Mapped", "").startswith("Some"):
+            okh = True
+        elif arms.get("Disabled", "None") != "None" or (arms.get("Mapped") is not None and not arms["Mapped"].startswith("Some")):
+            okh = False
+        else:
+            okh = None
+        obs.append(ob("C07.collector/%s" % nm, okh, ctx.where(h), "%s reports a field only if the collector is not globally disabled and the field is Mapped: consults overall_disabled=%s arms=%s" % (nm, dis, arms)))
     # disable_field is sticky: add_field after disable_field must not re-map
     af = [h for h in tc.fns if h.name == "add_field" and h.base == "BindingMapCollector" and h.body]
     if af:
